@@ -262,52 +262,8 @@ func c19Indexes(p *Program, r *Report) {
 		if fn.Parent() != nil {
 			continue
 		}
-		g := p.ig(fn)
 		for _, tbl := range []*types.Var{es.ByType, es.ByPath} {
-			for _, w := range p.tableWrites(fn, tbl) {
-				if w.kind != "delete-outer" {
-					continue
-				}
-				n++
-				del := w.in.(*ssa.Call)
-				key := del.Call.Args[1]
-				sameEntry := func(v ssa.Value) bool {
-					// v is T[key] for the same table and key
-					lk, ok := strip(v).(*ssa.Lookup)
-					if !ok {
-						if ex, isEx := strip(v).(*ssa.Extract); isEx {
-							lk, ok = ex.Tuple.(*ssa.Lookup)
-						}
-					}
-					if !ok {
-						return false
-					}
-					f, _ := fieldLoad(lk.X)
-					return f == tbl && sameValue(lk.Index, key)
-				}
-				empty := g.edgesWhere(func(f cmpFact) bool {
-					if f.Y != nil || f.IsNil || !(f.impliesEq(0) || notPositive(f)) {
-						return false
-					}
-					c, ok := strip(f.X).(*ssa.Call)
-					if !ok {
-						return false
-					}
-					b, ok := c.Call.Value.(*ssa.Builtin)
-					return ok && b.Name() == "len" && sameEntry(c.Call.Args[0])
-				})
-				okDel := len(empty) > 0 && g.DominatedByEdges(w.node, empty)
-				if !okDel {
-					// after a complete loop over the same entry
-					for i, in := range g.Nodes {
-						if rg, isR := in.(*ssa.Range); isR && sameEntry(rg.X) && g.DominatedByNodes(w.node, setOf(i)) {
-							okDel = true
-						}
-					}
-				}
-				r.Check(okDel, fmt.Sprintf("%s whole-entry delete in %s", tbl.Name(), fnName(fn)), del.Pos(),
-					"delete(table, key) is dominated by an edge asserting len(table[key]) == 0 for the same table and key, or follows a loop over table[key] that removes the mirrored entries: a whole entry is never dropped while it still records subscriptions")
-			}
+			n += p.wholeEntryDeletes(r, fn, tbl, "a whole entry is never dropped while it still records subscriptions")
 		}
 	}
 	if n == 0 {
@@ -630,4 +586,57 @@ func c19BeforeReported(p *Program, r *Report) {
 		pos = first.Pos()
 	}
 	r.Check(ok, "subscriptions dropped before the termination is observable", pos, fmt.Sprintf("each of the %d observable termination effects (path release, OnKilled notices, ActorKilledEvent) is dominated by UnsubscribeAll", len(observable)))
+}
+
+
+// wholeEntryDeletes: every delete(table, key) of a two-level table in fn is dominated by an edge asserting len(table[key]) == 0
+// for the same table and key, or follows a loop over table[key].
+func (p *Program) wholeEntryDeletes(r *Report, fn *ssa.Function, tbl *types.Var, consequence string) int {
+	n := 0
+	g := p.ig(fn)
+	for _, w := range p.tableWrites(fn, tbl) {
+		if w.kind != "delete-outer" {
+			continue
+		}
+		n++
+		del := w.in.(*ssa.Call)
+		key := del.Call.Args[1]
+		sameEntry := func(v ssa.Value) bool {
+			// v is T[key] for the same table and key
+			lk, ok := strip(v).(*ssa.Lookup)
+			if !ok {
+				if ex, isEx := strip(v).(*ssa.Extract); isEx {
+					lk, ok = ex.Tuple.(*ssa.Lookup)
+				}
+			}
+			if !ok {
+				return false
+			}
+			f, _ := fieldLoad(lk.X)
+			return f == tbl && sameValue(lk.Index, key)
+		}
+		empty := g.edgesWhere(func(f cmpFact) bool {
+			if f.Y != nil || f.IsNil || !(f.impliesEq(0) || notPositive(f)) {
+				return false
+			}
+			c, ok := strip(f.X).(*ssa.Call)
+			if !ok {
+				return false
+			}
+			b, ok := c.Call.Value.(*ssa.Builtin)
+			return ok && b.Name() == "len" && sameEntry(c.Call.Args[0])
+		})
+		okDel := len(empty) > 0 && g.DominatedByEdges(w.node, empty)
+		if !okDel {
+			// after a complete loop over the same entry
+			for i, in := range g.Nodes {
+				if rg, isR := in.(*ssa.Range); isR && sameEntry(rg.X) && g.DominatedByNodes(w.node, setOf(i)) {
+					okDel = true
+				}
+			}
+		}
+		r.Check(okDel, fmt.Sprintf("%s whole-entry delete in %s", tbl.Name(), fnName(fn)), del.Pos(),
+			"delete(table, key) is dominated by an edge asserting len(table[key]) == 0 for the same table and key, or follows a loop over table[key] that removes the entries one by one: "+consequence)
+	}
+	return n
 }
